@@ -231,9 +231,14 @@ func c05emitlock(p *Program, r *Report, env *lockEnv, rule string) {
 	n := 0
 	for _, cs := range emitterSites(p) {
 		fname := p.FuncName(cs.Fn)
-		switch fname {
-		case "Conn.writeFrame", "Conn.writeFramePayload", "writeFrameHeader":
-		default:
+		isEmitter := false
+		for _, owner := range p.siteOwners(cs.Fn) {
+			switch owner {
+			case "Conn.writeFrame", "Conn.writeFramePayload", "writeFrameHeader":
+				isEmitter = true
+			}
+		}
+		if !isEmitter {
 			continue
 		}
 		n++
